@@ -14,7 +14,7 @@
    every commit against `encap_recipients` evaluated in Coq; removed and never-added parties fed
    all later traffic).  Statements only. *)
 From Coq Require Import NArith List.
-From MlsV Require Import Res TreeMathGen Tree TreeProofs TreeWF Kem KemProofs Admission AdmissionProofs KemGen KemGenProofs.
+From MlsV Require Import Res TreeMathGen Tree TreeProofs TreeWF Kem KemProofs Admission AdmissionProofs KemGen KemGenProofs AdmissionGen AdmissionGenProofs.
 Import ListNotations.
 Local Open Scope N_scope.
 
@@ -77,3 +77,11 @@ Theorem C02_translated_sender_filter_is_the_model :
   forall excl idx, gen_seal_keep (map (fun l => 2 * l) excl) idx = not_excluded excl idx.
 Proof. exact gen_seal_keep_is_model. Qed.
 Print Assumptions C02_translated_sender_filter_is_the_model.
+
+(* the admission rule (version, group id, epoch per content type, epoch window, no unencrypted
+   application data) IS what the translator reads in MessageProcessor::check_metadata, shared by
+   members and observers (regenerated on every run) *)
+Theorem C02_translated_check_metadata_is_the_model : forall v gid epoch ct cipher,
+  gen_check_metadata v gid epoch ct cipher = check_metadata v gid epoch ct cipher.
+Proof. exact gen_check_metadata_is_model. Qed.
+Print Assumptions C02_translated_check_metadata_is_the_model.
